@@ -535,8 +535,6 @@ impl Subscription {
                 }
 
                 for event in commit {
-                    debug_assert!(watermark.can_read(event.partition_sequence));
-
                     let sequence = event.partition_sequence;
                     self.send_record(event).await?;
 
@@ -623,8 +621,6 @@ impl Subscription {
                             }
 
                             for event in commit {
-                                debug_assert!(watermark.can_read(event.partition_sequence));
-
                                 let sequence = event.partition_sequence;
                                 self.send_record(event).await?;
 
@@ -700,8 +696,6 @@ impl Subscription {
                 }
 
                 for event in commit {
-                    debug_assert!(watermark.can_read(event.partition_sequence));
-
                     let version = event.stream_version;
                     self.send_record(event).await?;
 
